@@ -1,6 +1,6 @@
 (* C14: theorems about the per-time-point neighbour-distance model. *)
-From Coq Require Import ZArith QArith List Bool String Lia.
-From MellonV Require Import PyVal PyValExtC14 C14Gen C14Model.
+From Coq Require Import ZArith QArith List Bool Lia Sorting.Sorted.
+From MellonV Require Import PyVal PyValFacts PyValExtC14 C14Gen C14Model.
 Import ListNotations.
 Open Scope Z_scope.
 
@@ -10,3 +10,852 @@ Lemma skeleton_ok :
   /\ compute_nn_distances_skeleton = expected_compute_nn_distances_skeleton
   /\ n_obs_wiring = expected_n_obs_wiring.
 Proof. repeat split; vm_compute; reflexivity. Qed.
+
+(* ---------- select / scatter / rank ---------- *)
+Lemma select_length {A} (m : list bool) (l : list A) :
+  length m = length l -> length (select m l) = count_true m.
+Proof.
+  revert l; induction m as [|b m IH]; intros [|a l] H; simpl in *; try discriminate; [reflexivity|].
+  injection H as H. unfold count_true in *. destruct b; simpl; rewrite IH by assumption; reflexivity.
+Qed.
+
+Lemma scatter_length {A} (m : list bool) (v acc : list A) : length (scatter m v acc) = length acc.
+Proof.
+  revert v acc; induction m as [|b m IH]; intros v [|a acc]; simpl; try reflexivity.
+  destruct b; [destruct v|]; simpl; rewrite IH; reflexivity.
+Qed.
+
+Lemma rank_le_count (m : list bool) i : (rank m i <= count_true m)%nat.
+Proof.
+  revert i; induction m as [|b m IH]; intros [|i]; simpl; try lia.
+  unfold count_true in *. specialize (IH i). destruct b; simpl; lia.
+Qed.
+
+Lemma rank_lt_count (m : list bool) i :
+  nth i m false = true -> (rank m i < count_true m)%nat.
+Proof.
+  revert i; induction m as [|b m IH]; intros [|i] H; simpl in *; try discriminate.
+  - subst b. unfold count_true; simpl; lia.
+  - specialize (IH i H). unfold count_true in *. destruct b; simpl; lia.
+Qed.
+
+Lemma scatter_nth {A} (m : list bool) (v acc : list A) i d :
+  length m = length acc -> length v = count_true m -> (i < length acc)%nat ->
+  nth i (scatter m v acc) d = if nth i m false then nth (rank m i) v d else nth i acc d.
+Proof.
+  revert v acc i; induction m as [|b m IH]; intros v [|a acc] i Hm Hv Hi; simpl in *; try discriminate; try lia.
+  injection Hm as Hm. unfold count_true in Hv. destruct b; simpl in Hv.
+  - destruct v as [|x v]; [discriminate|]. injection Hv as Hv.
+    destruct i as [|i]; simpl; [reflexivity|]. apply IH; [assumption|exact Hv|lia].
+  - destruct i as [|i]; simpl; [reflexivity|]. apply IH; [assumption|exact Hv|lia].
+Qed.
+
+Lemma select_nth_rank {A} (m : list bool) (l : list A) i d :
+  length m = length l -> nth i m false = true -> nth (rank m i) (select m l) d = nth i l d.
+Proof.
+  revert l i; induction m as [|b m IH]; intros [|a l] i Hm Hi; simpl in *; try discriminate.
+  - destruct i; discriminate.
+  - injection Hm as Hm. destruct i as [|i]; simpl in *.
+    + subst b. reflexivity.
+    + destruct b; simpl; apply IH; assumption.
+Qed.
+
+Lemma rank_inj (m : list bool) i j :
+  nth i m false = true -> nth j m false = true -> rank m i = rank m j -> i = j.
+Proof.
+  revert i j; induction m as [|b m IH]; intros [|i] [|j] Hi Hj H; simpl in *; try discriminate; try reflexivity.
+  - subst b. lia.
+  - subst b. lia.
+  - f_equal. apply IH; try assumption. destruct b; lia.
+Qed.
+
+Lemma rank_surj (m : list bool) k :
+  (k < count_true m)%nat -> exists j, (j < length m)%nat /\ nth j m false = true /\ rank m j = k.
+Proof.
+  revert k; induction m as [|b m IH]; intros k H; unfold count_true in *; simpl in *; [lia|].
+  destruct b; simpl in *.
+  - destruct k as [|k].
+    + exists 0%nat. repeat split; lia.
+    + destruct (IH k) as [j [H1 [H2 H3]]]; [lia|]. exists (S j). simpl. repeat split; try lia; assumption.
+  - destruct (IH k H) as [j [H1 [H2 H3]]]. exists (S j). simpl. repeat split; try lia; assumption.
+Qed.
+
+(* ---------- equality / order on float values ---------- *)
+Lemma Qeqb_refl q : Qeq_bool q q = true.
+Proof. apply Qeq_bool_iff. reflexivity. Qed.
+
+Lemma xf_eqb_refl a : xf_isnan a = false -> xf_eqb a a = true.
+Proof. destruct a; simpl; intros H; try reflexivity; [apply Qeqb_refl|discriminate]. Qed.
+
+Lemma xf_eqb_sym a b : xf_eqb a b = xf_eqb b a.
+Proof.
+  destruct a, b; simpl; try reflexivity.
+  destruct (Qeq_bool q q0) eqn:E, (Qeq_bool q0 q) eqn:F; try reflexivity.
+  - apply Qeq_bool_iff in E. symmetry in E. apply Qeq_bool_iff in E. congruence.
+  - apply Qeq_bool_iff in F. symmetry in F. apply Qeq_bool_iff in F. congruence.
+Qed.
+
+Lemma xf_eqb_trans a b c : xf_eqb a b = true -> xf_eqb b c = true -> xf_eqb a c = true.
+Proof.
+  destruct a, b, c; simpl; try discriminate; try reflexivity.
+  intros H1 H2. apply Qeq_bool_iff in H1, H2. apply Qeq_bool_iff. now rewrite H1.
+Qed.
+
+(* two values equal to a common third one are equal *)
+Lemma xf_eqb_eucl a b c : xf_eqb a b = true -> xf_eqb a c = true -> xf_eqb b c = true.
+Proof. intros H1 H2. rewrite xf_eqb_sym in H1. eapply xf_eqb_trans; eassumption. Qed.
+
+Lemma Qltb_lt p q : Qltb p q = true <-> (p < q)%Q.
+Proof.
+  unfold Qltb. split; intros H.
+  - apply Qnot_le_lt. intros C. apply Qle_bool_iff in C. rewrite C in H. discriminate.
+  - destruct (Qle_bool q p) eqn:E; [|reflexivity]. apply Qle_bool_iff in E. exfalso. exact (Qlt_not_le _ _ H E).
+Qed.
+
+Lemma xf_ltb_trans a b c : xf_ltb a b = true -> xf_ltb b c = true -> xf_ltb a c = true.
+Proof.
+  destruct a, b, c; simpl; try discriminate; try reflexivity.
+  intros H1 H2. apply Qltb_lt in H1, H2. apply Qltb_lt. eapply Qlt_trans; eassumption.
+Qed.
+
+Lemma xf_ltb_neq a b : xf_ltb a b = true -> xf_eqb a b = false.
+Proof.
+  destruct a, b; simpl; try discriminate; try reflexivity.
+  intros H. apply Qltb_lt in H. destruct (Qeq_bool q q0) eqn:E; [|reflexivity].
+  apply Qeq_bool_iff in E. rewrite E in H. exfalso. exact (Qlt_irrefl _ H).
+Qed.
+
+Lemma xf_trichotomy a b :
+  xf_isnan a = false -> xf_isnan b = false -> xf_ltb a b = false -> xf_eqb a b = false -> xf_ltb b a = true.
+Proof.
+  destruct a, b; simpl; try discriminate; try reflexivity.
+  intros _ _ H1 H2. apply Qltb_lt.
+  destruct (Q_dec q q0) as [[H|H]|H].
+  - apply Qltb_lt in H. congruence.
+  - exact H.
+  - apply Qeq_bool_iff in H. congruence.
+Qed.
+
+(* ---------- jnp.unique: strictly ascending, hence pairwise distinct, and covering ---------- *)
+Definition lt_rel (a b : xf) : Prop := xf_ltb a b = true.
+
+Lemma insert_dedup_in x l y : In y (insert_dedup x l) -> y = x \/ In y l.
+Proof.
+  induction l as [|h t IH]; simpl.
+  - intros [H|[]]. left. symmetry. exact H.
+  - destruct (xf_ltb x h).
+    + intros [H|H]; [left; symmetry; exact H|right; exact H].
+    + destruct (xf_eqb x h); [intros H; right; exact H|].
+      intros [H|H]; [right; left; exact H|]. destruct (IH H) as [H1|H1]; [left; exact H1|right; right; exact H1].
+Qed.
+
+Lemma insert_dedup_nonan x l :
+  xf_isnan x = false -> Forall (fun y => xf_isnan y = false) l -> Forall (fun y => xf_isnan y = false) (insert_dedup x l).
+Proof.
+  intros Hx Hl. apply Forall_forall. intros y Hy. apply insert_dedup_in in Hy. destruct Hy as [->|Hy]; [assumption|].
+  rewrite Forall_forall in Hl. auto.
+Qed.
+
+Lemma insert_dedup_sorted x l :
+  xf_isnan x = false -> Forall (fun y => xf_isnan y = false) l ->
+  StronglySorted lt_rel l -> StronglySorted lt_rel (insert_dedup x l).
+Proof.
+  intros Hx Hn Hs. induction Hs as [|h t Hs IH Hh]; simpl.
+  - constructor; constructor.
+  - inversion Hn as [|? ? Hhn Htn]; subst.
+    destruct (xf_ltb x h) eqn:E1.
+    + constructor; [constructor; assumption|]. constructor; [exact E1|].
+      eapply Forall_impl; [|exact Hh]. intros y Hy. eapply xf_ltb_trans; eassumption.
+    + destruct (xf_eqb x h) eqn:E2; [constructor; assumption|].
+      constructor; [apply IH; assumption|].
+      apply Forall_forall. intros y Hy. apply insert_dedup_in in Hy. destruct Hy as [->|Hy].
+      * apply xf_trichotomy; assumption.
+      * rewrite Forall_forall in Hh. auto.
+Qed.
+
+Lemma insert_dedup_cover x l : xf_isnan x = false -> exists u, In u (insert_dedup x l) /\ xf_eqb x u = true.
+Proof.
+  intros Hx. induction l as [|h t IH]; simpl.
+  - exists x. split; [left; reflexivity|apply xf_eqb_refl; assumption].
+  - destruct (xf_ltb x h); [exists x; split; [left; reflexivity|apply xf_eqb_refl; assumption]|].
+    destruct (xf_eqb x h) eqn:E; [exists h; split; [left; reflexivity|assumption]|].
+    destruct IH as [u [H1 H2]]. exists u. split; [right; assumption|assumption].
+Qed.
+
+
+Definition nonan_part (l : list xf) : list xf := fold_right insert_dedup [] (filter (fun x => negb (xf_isnan x)) l).
+
+Lemma nonan_part_props (l : list xf) :
+  Forall (fun y => xf_isnan y = false) (nonan_part l) /\ StronglySorted lt_rel (nonan_part l).
+Proof.
+  unfold nonan_part. induction l as [|a l [IH1 IH2]]; simpl; [split; constructor|].
+  destruct (xf_isnan a) eqn:E; simpl; [split; assumption|].
+  split; [apply insert_dedup_nonan|apply insert_dedup_sorted]; assumption.
+Qed.
+
+Lemma insert_dedup_mono x l y : In y l -> xf_isnan y = false -> exists u, In u (insert_dedup x l) /\ xf_eqb y u = true.
+Proof.
+  intros Hy Hn. induction l as [|h t IH]; simpl; [destruct Hy|].
+  destruct (xf_ltb x h); [exists y; split; [right; assumption|apply xf_eqb_refl; assumption]|].
+  destruct (xf_eqb x h) eqn:E; [exists y; split; [assumption|apply xf_eqb_refl; assumption]|].
+  destruct Hy as [->|Hy].
+  - exists y. split; [left; reflexivity|apply xf_eqb_refl; assumption].
+  - destruct (IH Hy) as [u [H1 H2]]. exists u. split; [right; assumption|assumption].
+Qed.
+
+Lemma nonan_part_cover (l : list xf) x : In x l -> xf_isnan x = false -> exists u, In u (nonan_part l) /\ xf_eqb x u = true.
+Proof.
+  unfold nonan_part. induction l as [|a l IH]; simpl; [tauto|].
+  intros [->|Hx] Hn.
+  - rewrite Hn. simpl. apply insert_dedup_cover. assumption.
+  - destruct (IH Hx Hn) as [u [H1 H2]].
+    destruct (xf_isnan a) eqn:E; simpl; [exists u; tauto|].
+    destruct (insert_dedup_mono a _ u H1) as [w [H3 H4]].
+    { destruct u; try reflexivity. destruct x; discriminate. }
+    exists w. split; [assumption|]. eapply xf_eqb_trans; eassumption.
+Qed.
+
+Lemma sort_dedup_split l : sort_dedup l = nonan_part l ++ (if existsb xf_isnan l then [XNaN] else []).
+Proof. reflexivity. Qed.
+
+(* pairwise distinctness in the sense the loop needs *)
+Definition distinct (uts : list xf) : Prop :=
+  forall i j, (i < length uts)%nat -> (j < length uts)%nat -> i <> j -> xf_eqb (nth i uts XNaN) (nth j uts XNaN) = false.
+
+Lemma sorted_distinct l : StronglySorted lt_rel l -> distinct l.
+Proof.
+  intros Hs. induction Hs as [|h t Hs IH Hh]; intros i j Hi Hj Hij; simpl in *; [lia|].
+  rewrite Forall_forall in Hh.
+  destruct i as [|i], j as [|j]; try lia.
+  - apply xf_ltb_neq. apply Hh. apply nth_In. lia.
+  - rewrite xf_eqb_sym. apply xf_ltb_neq. apply Hh. apply nth_In. lia.
+  - apply IH; lia.
+Qed.
+
+Lemma distinct_app_nan l : distinct l -> Forall (fun y => xf_isnan y = false) l -> distinct (l ++ [XNaN]).
+Proof.
+  intros Hd Hn i j Hi Hj Hij. rewrite app_length in Hi, Hj. simpl in Hi, Hj.
+  destruct (Nat.lt_ge_cases i (length l)) as [Hi'|Hi'], (Nat.lt_ge_cases j (length l)) as [Hj'|Hj'].
+  - rewrite !app_nth1 by assumption. apply Hd; assumption.
+  - rewrite (app_nth2 l [XNaN]) with (n := j) by assumption.
+    replace (j - length l)%nat with 0%nat by lia. simpl. destruct (nth i (l ++ [XNaN]) XNaN); reflexivity.
+  - rewrite (app_nth2 l [XNaN]) with (n := i) by assumption.
+    replace (i - length l)%nat with 0%nat by lia. reflexivity.
+  - lia.
+Qed.
+
+Lemma sort_dedup_distinct l : distinct (sort_dedup l).
+Proof.
+  rewrite sort_dedup_split. destruct (nonan_part_props l) as [H1 H2].
+  destruct (existsb xf_isnan l).
+  - apply distinct_app_nan; [apply sorted_distinct|]; assumption.
+  - rewrite app_nil_r. apply sorted_distinct. assumption.
+Qed.
+
+(* "ordered from earliest to latest" *)
+Lemma sort_dedup_sorted l : existsb xf_isnan l = false -> StronglySorted lt_rel (sort_dedup l).
+Proof. intros H. rewrite sort_dedup_split, H, app_nil_r. apply nonan_part_props. Qed.
+
+Lemma sort_dedup_cover l x : In x l -> xf_isnan x = false -> exists u, In u (sort_dedup l) /\ xf_eqb x u = true.
+Proof.
+  intros H1 H2. destruct (nonan_part_cover l x H1 H2) as [u [H3 H4]]. exists u. split; [|assumption].
+  rewrite sort_dedup_split. apply in_or_app. left. assumption.
+Qed.
+
+Lemma sort_dedup_nan l : existsb xf_isnan l = true -> In XNaN (sort_dedup l).
+Proof. intros H. rewrite sort_dedup_split, H. apply in_or_app. right. left. reflexivity. Qed.
+
+(* ---------- the loop: induction over the fold with a filled-positions invariant ---------- *)
+Lemma nth_zip_with {A B C} (f : A -> B -> C) (a : list A) (b : list B) k da db dc :
+  (k < length a)%nat -> (k < length b)%nat -> nth k (zip_with f a b) dc = f (nth k a da) (nth k b db).
+Proof.
+  revert b k; induction a as [|x a IH]; intros [|y b] k Ha Hb; simpl in *; try lia.
+  destruct k as [|k]; [reflexivity|]. apply IH; lia.
+Qed.
+
+Lemma zip_with_length {A B C} (f : A -> B -> C) (a : list A) (b : list B) :
+  length a = length b -> length (zip_with f a b) = length a.
+Proof. revert b; induction a as [|x a IH]; intros [|y b] H; simpl in *; try discriminate; [reflexivity|]. now rewrite IH by lia. Qed.
+
+Lemma distinct_tail t r : distinct (t :: r) -> distinct r.
+Proof. intros H i j Hi Hj Hij. apply (H (S i) (S j)); simpl; lia. Qed.
+
+Lemma distinct_head t r u : distinct (t :: r) -> In u r -> xf_eqb t u = false.
+Proof.
+  intros H Hu. destruct (In_nth _ _ XNaN Hu) as [j [Hj <-]].
+  apply (H 0%nat (S j)); simpl; lia.
+Qed.
+
+Lemma fold_err {A B} (f : res A -> B -> res A) (l : list B) e :
+  (forall b, f (Err e) b = Err e) -> fold_left f l (Err e) = Err e.
+Proof. intros H. induction l as [|b l IH]; simpl; [reflexivity|]. rewrite H. exact IH. Qed.
+
+Lemma xf_eqb_nan_l u : xf_eqb XNaN u = false.
+Proof. reflexivity. Qed.
+
+Section LoopSpec.
+  Context {P : Type}.
+  Variable nn_oracle : list P -> list xf.
+  Variable fac : xf -> list bool -> nat -> res (option (list xf)).
+  Hypothesis nn_len : forall g, length (nn_oracle g) = length g.
+  Variable cs : list (P * xf).
+  Hypothesis fac_len : forall t fs, fac t (mask_of cs t) (count_true (mask_of cs t)) = Ok (Some fs) -> length fs = count_true (mask_of cs t).
+
+  (* the value the property assigns to cell i of the time point u *)
+  Definition value_at (u : xf) (fo : option (list xf)) (i : nat) : xf :=
+    let m := mask_of cs u in
+    let k := rank m i in
+    let nn := nth k (nn_oracle (select m (map fst cs))) XNaN in
+    match fo with None => nn | Some fs => xf_mul (nth k fs XNaN) nn end.
+
+  Definition time_of (i : nat) : xf := nth i (map snd cs) XNaN.
+
+  Lemma mask_length u : length (mask_of cs u) = length cs.
+  Proof. unfold mask_of. apply map_length. Qed.
+
+  Lemma mask_nth u i : nth i (mask_of cs u) false = xf_eqb (time_of i) u.
+  Proof.
+    unfold mask_of, time_of. revert i. clear fac_len. induction cs as [|c cs' IH]; intros [|i]; simpl; try reflexivity. apply IH.
+  Qed.
+
+  Lemma step_ok acc t a1 :
+    length acc = length cs -> step nn_oracle fac cs acc t = Ok a1 ->
+    (2 <= count_true (mask_of cs t))%nat /\ length a1 = length cs /\
+    exists fo, fac t (mask_of cs t) (count_true (mask_of cs t)) = Ok fo /\
+      forall i, (i < length cs)%nat ->
+        nth i a1 XNaN = if nth i (mask_of cs t) false then value_at t fo i else nth i acc XNaN.
+  Proof.
+    intros Hacc. unfold step.
+    destruct (Nat.ltb_spec (count_true (mask_of cs t)) 2) as [Hc|Hc]; [discriminate|].
+    destruct (fac t (mask_of cs t) (count_true (mask_of cs t))) as [fo|e] eqn:Hf; simpl; [|discriminate].
+    intros H. injection H as <-. split; [exact Hc|]. split; [rewrite scatter_length; exact Hacc|].
+    exists fo. split; [reflexivity|]. intros i Hi.
+    assert (Hsel : length (nn_oracle (select (mask_of cs t) (map fst cs))) = count_true (mask_of cs t)).
+    { rewrite nn_len. apply select_length. rewrite mask_length, map_length. reflexivity. }
+    assert (Hsc : length (scaled fo (nn_oracle (select (mask_of cs t) (map fst cs)))) = count_true (mask_of cs t)).
+    { destruct fo as [fs|]; simpl; [|exact Hsel]. rewrite zip_with_length; [exact (fac_len _ _ Hf)|].
+      rewrite Hsel. exact (fac_len _ _ Hf). }
+    rewrite scatter_nth; [|rewrite mask_length; symmetry; exact Hacc|exact Hsc|rewrite Hacc; exact Hi].
+    destruct (nth i (mask_of cs t) false) eqn:Hm; [|reflexivity].
+    unfold value_at. pose proof (rank_lt_count _ _ Hm) as Hr.
+    destruct fo as [fs|]; simpl; [|reflexivity].
+    apply nth_zip_with; [rewrite (fac_len _ _ Hf)|rewrite Hsel]; exact Hr.
+  Qed.
+
+  Theorem loop_spec uts : forall init out,
+    length init = length cs -> distinct uts ->
+    loop nn_oracle fac cs uts init = Ok out ->
+    length out = length cs
+    /\ (forall u, In u uts ->
+          (2 <= count_true (mask_of cs u))%nat /\
+          exists fo, fac u (mask_of cs u) (count_true (mask_of cs u)) = Ok fo /\
+            forall i, (i < length cs)%nat -> xf_eqb (time_of i) u = true -> nth i out XNaN = value_at u fo i)
+    /\ (forall i, (i < length cs)%nat -> (forall u, In u uts -> xf_eqb (time_of i) u = false) ->
+          nth i out XNaN = nth i init XNaN).
+  Proof.
+    induction uts as [|t r IH]; intros init out Hlen Hd Hloop.
+    - unfold loop in Hloop. simpl in Hloop. injection Hloop as <-.
+      split; [exact Hlen|]. split; [intros u []|reflexivity].
+    - unfold loop in Hloop. simpl in Hloop.
+      destruct (step nn_oracle fac cs init t) as [a1|e] eqn:Hs.
+      2:{ rewrite fold_err in Hloop by reflexivity. discriminate. }
+      destruct (step_ok _ _ _ Hlen Hs) as [Hc [Hl1 [fo [Hf Hv]]]].
+      destruct (IH a1 out Hl1 (distinct_tail _ _ Hd) Hloop) as [Ho [Hin Hout]].
+      split; [exact Ho|]. split.
+      + intros u [<-|Hu].
+        * split; [exact Hc|]. exists fo. split; [exact Hf|]. intros i Hi Hm.
+          rewrite Hout; [|exact Hi|].
+          -- rewrite Hv by exact Hi. rewrite mask_nth, Hm. reflexivity.
+          -- intros u' Hu'. destruct (xf_eqb (time_of i) u') eqn:E; [|reflexivity].
+             pose proof (xf_eqb_eucl _ _ _ Hm E) as C. rewrite (distinct_head _ _ _ Hd Hu') in C. discriminate.
+        * exact (Hin u Hu).
+      + intros i Hi Hno. rewrite Hout; [|exact Hi|intros u Hu; apply Hno; right; exact Hu].
+        rewrite Hv by exact Hi. rewrite mask_nth, (Hno t (or_introl eq_refl)). reflexivity.
+  Qed.
+
+  (* a time point with fewer than two cells is refused (ValueError when the factor computation itself cannot fail,
+     e.g. without normalisation) *)
+  Theorem loop_singleton_refused uts init u :
+    In u uts -> (count_true (mask_of cs u) < 2)%nat ->
+    (forall t m n, exists fo, fac t m n = Ok fo) ->
+    loop nn_oracle fac cs uts init = Err ValueError.
+  Proof.
+    intros Hu Hc Hfac. unfold loop. revert init. induction uts as [|t r IH]; intros init; [destruct Hu|].
+    simpl. destruct (step nn_oracle fac cs init t) as [a1|e] eqn:Hs.
+    - destruct Hu as [->|Hu]; [|apply IH; exact Hu].
+      unfold step in Hs. destruct (Nat.ltb_spec (count_true (mask_of cs u)) 2); [discriminate|lia].
+    - assert (e = ValueError) as ->.
+      { unfold step in Hs. destruct (count_true (mask_of cs t) <? 2)%nat; [congruence|].
+        destruct (Hfac t (mask_of cs t) (count_true (mask_of cs t))) as [fo Hfo]. rewrite Hfo in Hs. discriminate. }
+      apply fold_err. reflexivity.
+  Qed.
+End LoopSpec.
+
+(* ---------- with the contract of the neighbour search: the closest OTHER cell with the SAME time stamp ---------- *)
+Section NNContract.
+  Context {P : Type}.
+  Variable dP : P.
+  Variable dist : P -> P -> xf.
+  Variable le : xf -> xf -> Prop.
+  Variable nn_oracle : list P -> list xf.
+
+  Definition is_nn (g : list P) (k : nat) (v : xf) : Prop :=
+    (exists l, (l < length g)%nat /\ l <> k /\ v = dist (nth k g dP) (nth l g dP))
+    /\ (forall l, (l < length g)%nat -> l <> k -> le v (dist (nth k g dP) (nth l g dP))).
+  Hypothesis nn_contract : forall g k, (2 <= length g)%nat -> (k < length g)%nat -> is_nn g k (nth k (nn_oracle g) XNaN).
+
+  Variable cs : list (P * xf).
+  Definition point_of (i : nat) : P := nth i (map fst cs) dP.
+
+  Theorem group_nn_is_within_time_point u i :
+    (i < length cs)%nat -> xf_eqb (time_of cs i) u = true -> (2 <= count_true (mask_of cs u))%nat ->
+    let v := nth (rank (mask_of cs u) i) (nn_oracle (select (mask_of cs u) (map fst cs))) XNaN in
+    (exists j, (j < length cs)%nat /\ j <> i /\ xf_eqb (time_of cs j) u = true /\ v = dist (point_of i) (point_of j))
+    /\ (forall j, (j < length cs)%nat -> j <> i -> xf_eqb (time_of cs j) u = true -> le v (dist (point_of i) (point_of j))).
+  Proof.
+    intros Hi Hm Hc v.
+    set (m := mask_of cs u) in *. set (g := select m (map fst cs)) in *.
+    assert (Hml : length m = length (map fst cs)) by (unfold m; rewrite mask_length, map_length; reflexivity).
+    assert (Hg : length g = count_true m) by (apply select_length; exact Hml).
+    assert (Hmi : nth i m false = true) by (unfold m; rewrite mask_nth; exact Hm).
+    pose proof (rank_lt_count _ _ Hmi) as Hr.
+    destruct (nn_contract g (rank m i)) as [[l [Hl [Hlk Hv]]] Hmin]; [lia|lia|].
+    assert (Hpi : nth (rank m i) g dP = point_of i) by (apply select_nth_rank; assumption).
+    split.
+    - destruct (rank_surj m l) as [j [Hj [Hmj Hrj]]]; [lia|].
+      exists j. rewrite Hml, map_length in Hj. split; [exact Hj|]. split; [intros ->; apply Hlk; symmetry; exact Hrj|].
+      split; [unfold m in Hmj; rewrite mask_nth in Hmj; exact Hmj|].
+      unfold v. fold m g. rewrite Hv, Hpi, <- Hrj. f_equal. apply select_nth_rank; assumption.
+    - intros j Hj Hji Hmj.
+      assert (Hmj' : nth j m false = true) by (unfold m; rewrite mask_nth; exact Hmj).
+      pose proof (rank_lt_count _ _ Hmj') as Hrj.
+      specialize (Hmin (rank m j)). unfold v. fold m g.
+      pose proof (select_nth_rank m (map fst cs) j dP Hml Hmj') as Hpj. fold g in Hpj.
+      rewrite Hpi, Hpj in Hmin.
+      apply Hmin; [lia|]. intros E. apply Hji. eapply rank_inj; eassumption.
+  Qed.
+End NNContract.
+
+(* ---------- the generated _get_target_cell_count: which N_t a time point gets ---------- *)
+Lemma xf_truth_of_bool b : xf_truth (xf_of_bool b) = b.
+Proof. destruct b; reflexivity. Qed.
+
+Lemma target_bool b t av uv : py_parameters__get_target_cell_count (VBool b) t av uv = Ok av.
+Proof. reflexivity. Qed.
+
+Lemma target_dict l t av uv :
+  py_parameters__get_target_cell_count (VDict l) (VArr KF [] [t]) av uv
+  = match assoc_lookup (VFloat t) l with Some v => Ok v | None => Err KeyError end.
+Proof. reflexivity. Qed.
+
+Lemma find_index_spec (l : list xf) t : forall s j,
+  (j < length l)%nat -> (forall i, (i < j)%nat -> xf_eqb (nth i l XNaN) t = false) -> xf_eqb (nth j l XNaN) t = true ->
+  find_index (map (elem_val KF) l) (VArr KF [] [t]) s = Ok (VInt (s + Z.of_nat j)).
+Proof.
+  induction l as [|a l IH]; intros s j Hj Hbefore Hat; simpl in Hj; [lia|].
+  cbn [map find_index]. unfold py_eq. cbn [elem_val is_array orb arr_data as_num num_xf broadcast2 bind truthy].
+  rewrite xf_truth_of_bool.
+  destruct j as [|j].
+  - simpl in Hat. rewrite Hat. f_equal. f_equal. lia.
+  - pose proof (Hbefore 0%nat ltac:(lia)) as H0. simpl in H0. rewrite H0.
+    rewrite (IH (s + 1) j); [f_equal; f_equal; lia|lia| |exact Hat].
+    intros i Hi. apply (Hbefore (S i)). lia.
+Qed.
+
+(* position of a time point in the ascending list of unique times *)
+Lemma find_index_distinct uts j s :
+  distinct uts -> (j < length uts)%nat -> xf_isnan (nth j uts XNaN) = false ->
+  find_index (map (elem_val KF) uts) (VArr KF [] [nth j uts XNaN]) s = Ok (VInt (s + Z.of_nat j)).
+Proof.
+  intros Hd Hj Hn. apply find_index_spec; [exact Hj| |apply xf_eqb_refl; exact Hn].
+  intros i Hi. apply Hd; lia.
+Qed.
+
+(* list / tuple: the j-th entry for the j-th time point in ascending order *)
+Lemma target_list l uts k j av :
+  distinct uts -> (j < length uts)%nat -> xf_isnan (nth j uts XNaN) = false -> (j < length l)%nat ->
+  py_parameters__get_target_cell_count (VList l) (VArr KF [] [nth j uts XNaN]) av (VArr KF [k] uts)
+  = Ok (nth j l VNone).
+Proof.
+  intros Hd Hj Hn Hl. unfold py_parameters__get_target_cell_count.
+  cbn [bind bind2 cond py_isinstance existsb py_isinstance1 orb truthy np_tolist list_index].
+  rewrite (find_index_distinct uts j 0 Hd Hj Hn). cbn [bind Z.add].
+  unfold py_getitem_x, py_getitem, np_index1. cbn [as_num].
+  destruct (Z.ltb_spec (Z.of_nat j) 0); [lia|].
+  destruct (Z.leb_spec 0 (Z.of_nat j)); [|lia].
+  destruct (Z.ltb_spec (Z.of_nat j) (Z.of_nat (length l))); [|lia].
+  cbn [andb]. unfold nthZ. rewrite Nat2Z.id. reflexivity.
+Qed.
+
+(* JAX array: the j-th entry likewise *)
+Lemma target_array kd n d uts k j av :
+  distinct uts -> (j < length uts)%nat -> xf_isnan (nth j uts XNaN) = false -> (Z.of_nat j < n) ->
+  py_parameters__get_target_cell_count (VArr kd [n] d) (VArr KF [] [nth j uts XNaN]) av (VArr KF [k] uts)
+  = Ok (VArr kd [] [nth j d XNaN]).
+Proof.
+  intros Hd Hj Hn Hl. unfold py_parameters__get_target_cell_count.
+  cbn [bind bind2 cond py_isinstance existsb py_isinstance1 orb truthy np_tolist list_index].
+  rewrite (find_index_distinct uts j 0 Hd Hj Hn). cbn [bind Z.add].
+  unfold py_getitem_x, py_getitem, np_index1. cbn [as_num].
+  destruct (Z.ltb_spec (Z.of_nat j) 0); [lia|].
+  destruct (Z.leb_spec 0 (Z.of_nat j)); [|lia].
+  destruct (Z.ltb_spec (Z.of_nat j) n); [|lia].
+  cbn [andb]. unfold nthZ. rewrite Nat2Z.id. reflexivity.
+Qed.
+
+(* ---------- the factor: powf (n_t / N_t) (1 / d_i) ---------- *)
+Section Factor.
+  Variable powf : xf -> xf -> xf.
+
+  Lemma fac_of_off nz av uv d t m n : norm_on nz = false -> fac_of powf nz av uv d t m n = Ok None.
+  Proof. intros H. unfold fac_of. rewrite H. reflexivity. Qed.
+
+  Lemma fac_of_on nz av uv d t m n target Nt b es :
+    norm_on nz = true ->
+    py_parameters__get_target_cell_count nz (VArr KF [] [t]) av uv = Ok target ->
+    as_num target = Some Nt -> xf_div (xf_of_Z (Z.of_nat n)) (num_xf Nt) = Some b ->
+    exponents d m = Ok es ->
+    fac_of powf nz av uv d t m n = Ok (Some (map (powf b) es)).
+  Proof.
+    intros H1 H2 H3 H4 H5. unfold fac_of. rewrite H1, H2. cbn [bind]. unfold py_truediv.
+    unfold xf_of_Z at 1. cbn [as_num inject_Z Qnum]. rewrite H3. cbn [num_xf]. rewrite H4. cbn [bind].
+    rewrite H5. reflexivity.
+  Qed.
+
+  (* scalar d: every member of the group gets the exponent 1/d *)
+  Lemma exponents_scalar q m : Qeq_bool q 0 = false ->
+    exponents (VFloat (XFin q)) m = Ok (repeat (XFin (Qred (1 / q))) (count_true m)).
+  Proof.
+    intros H. unfold exponents. cbn [np_ndim_f as_num bind py_eq is_array orb scalar_eqb num_eqb Z.eqb truthy].
+    unfold py_truediv. cbn [as_num num_xf xf_of_Z xf_div inject_Z]. rewrite H. reflexivity.
+  Qed.
+
+  (* per-cell d: member k of the group gets 1/d_i of ITS cell *)
+  Lemma exponents_vector kd n dd m : exponents (VArr kd [n] dd) m = Ok (map xf_inv (select m dd)).
+  Proof. reflexivity. Qed.
+
+  Lemma exponents_length d m es : exponents d m = Ok es ->
+    (match d with VArr _ [_] dd => length dd = length m | _ => True end) -> length es = count_true m.
+  Proof.
+    unfold exponents. destruct (np_ndim_f d) as [nd|]; [|discriminate]. cbn [bind].
+    destruct (bind (py_eq nd (VInt 0)) truthy) as [[|]|]; cbn [bind]; try discriminate.
+    - destruct (py_truediv (VInt 1) d) as [[]|]; cbn [bind]; try discriminate.
+      intros H _. injection H as <-. apply repeat_length.
+    - destruct d; try discriminate. destruct shape as [|s [|]]; try discriminate.
+      intros H Hl. injection H as <-. rewrite map_length. apply select_length. symmetry. exact Hl.
+  Qed.
+
+  Lemma fac_of_length nz av uv d t m n fs :
+    fac_of powf nz av uv d t m n = Ok (Some fs) ->
+    (match d with VArr _ [_] dd => length dd = length m | _ => True end) -> length fs = count_true m.
+  Proof.
+    unfold fac_of. destruct (norm_on nz); [|discriminate].
+    destruct (py_parameters__get_target_cell_count nz (VArr KF [] [t]) av uv); [|discriminate]. cbn [bind].
+    destruct (py_truediv _ a) as [b|]; [|discriminate]. cbn [bind].
+    destruct (exponents d m) as [es|] eqn:He; [|discriminate]. cbn [bind].
+    destruct b; try discriminate. intros H Hl. injection H as <-. rewrite map_length.
+    eapply exponents_length; eassumption.
+  Qed.
+End Factor.
+
+(* ---------- validate_normalize_parameter ---------- *)
+Definition has_key (l : list (val * val)) (u : xf) : bool := existsb (fun kv => scalar_eqb (VFloat u) (fst kv)) l.
+
+Lemma listcomp_go_filter (f : val -> res val) (c : val -> res bool) (g : val -> val) (p : val -> bool) l :
+  (forall x, In x l -> f x = Ok (g x)) -> (forall x, In x l -> c x = Ok (p x)) ->
+  listcomp_go f c l = Ok (map g (filter p l)).
+Proof.
+  induction l as [|x l IH]; intros Hf Hc; [reflexivity|].
+  cbn [listcomp_go filter]. rewrite (Hc x (or_introl eq_refl)). cbn [bind].
+  rewrite IH; [|intros y Hy; apply Hf; right; exact Hy|intros y Hy; apply Hc; right; exact Hy].
+  destruct (p x); [rewrite (Hf x (or_introl eq_refl))|]; reflexivity.
+Qed.
+
+Lemma listcomp_missing l (uts : list xf) :
+  listcomp_go (fun t => Ok t) (fun t => cond (bind2 py_not_in (bind (Ok t) np_item) (Ok (VDict l))))
+    (map (fun x => VArr KF [] [x]) uts)
+  = Ok (map (fun x => VArr KF [] [x]) (filter (fun u => negb (has_key l u)) uts)).
+Proof.
+  rewrite (listcomp_go_filter _ _ (fun v => v)
+             (fun v => match v with VArr KF [] [u] => negb (has_key l u) | _ => false end)).
+  - rewrite map_id. f_equal. induction uts as [|u uts IH]; [reflexivity|].
+    cbn [map filter]. destruct (negb (has_key l u)); cbn [map]; rewrite IH; reflexivity.
+  - reflexivity.
+  - intros x Hx. apply in_map_iff in Hx. destruct Hx as [u [<- _]]. reflexivity.
+Qed.
+
+(* dict: refused exactly when a time point has no entry *)
+Lemma validate_normalize_dict l k uts :
+  py_parameter_validation_validate_normalize_parameter (VDict l) (VArr KF [k] uts)
+  = if forallb (has_key l) uts then Ok VNone else Err ValueError.
+Proof.
+  unfold py_parameter_validation_validate_normalize_parameter.
+  cbn [bind cond py_isinstance existsb py_isinstance1 orb truthy].
+  unfold py_listcomp. cbn [iter_items bind]. rewrite listcomp_missing. cbn [rmap bind cond truthy].
+  induction uts as [|u uts IH]; [reflexivity|].
+  cbn [filter forallb]. destruct (has_key l u); cbn [negb andb]; [exact IH|reflexivity].
+Qed.
+
+Lemma missing_key_refused_lemma l k uts u :
+  In u uts -> has_key l u = false ->
+  py_parameter_validation_validate_normalize_parameter (VDict l) (VArr KF [k] uts) = Err ValueError.
+Proof.
+  intros Hu Hk. rewrite validate_normalize_dict.
+  destruct (forallb (has_key l) uts) eqn:E; [|reflexivity].
+  rewrite forallb_forall in E. rewrite (E u Hu) in Hk. discriminate.
+Qed.
+
+(* list / JAX array: refused exactly when the length differs from the number of time points *)
+Lemma validate_normalize_list l k uts :
+  py_parameter_validation_validate_normalize_parameter (VList l) (VArr KF [k] uts)
+  = if Z.of_nat (length l) =? k then Ok VNone else Err ValueError.
+Proof.
+  unfold py_parameter_validation_validate_normalize_parameter.
+  cbn [bind bind2 cond py_isinstance py_isinstance_x py_isinstance1_x existsb py_isinstance1 orb truthy and_then py_len py_ne is_array scalar_eqb as_num num_eqb].
+  destruct (Z.of_nat (length l) =? k); reflexivity.
+Qed.
+
+Lemma validate_normalize_array kd n d k uts :
+  py_parameter_validation_validate_normalize_parameter (VArr kd [n] d) (VArr KF [k] uts)
+  = if n =? k then Ok VNone else Err ValueError.
+Proof.
+  unfold py_parameter_validation_validate_normalize_parameter.
+  cbn [bind bind2 cond py_isinstance py_isinstance_x py_isinstance1_x existsb py_isinstance1 orb truthy and_then py_len].
+  unfold py_ne. cbn [is_array orb scalar_eqb as_num num_eqb truthy bind].
+  destruct (n =? k); reflexivity.
+Qed.
+
+(* NumPy arrays likewise *)
+Lemma validate_normalize_nparray kd n d k uts :
+  py_parameter_validation_validate_normalize_parameter (VNpArr kd [n] d) (VArr KF [k] uts)
+  = if n =? k then Ok VNone else Err ValueError.
+Proof.
+  unfold py_parameter_validation_validate_normalize_parameter.
+  cbn [bind bind2 cond py_isinstance py_isinstance_x py_isinstance1_x existsb py_isinstance1 orb truthy and_then py_len].
+  unfold py_ne. cbn [is_array orb scalar_eqb as_num num_eqb truthy bind].
+  destruct (n =? k); reflexivity.
+Qed.
+
+Lemma validate_normalize_flag nz uv : nz = VNone \/ (exists b, nz = VBool b) ->
+  py_parameter_validation_validate_normalize_parameter nz uv = Ok VNone.
+Proof. intros [->|[b ->]]; reflexivity. Qed.
+
+(* ---------- compute_average_cell_count: the predictor's n_obs ---------- *)
+Definition n_unique (dat : list xf) (n c : Z) : Z := Z.of_nat (length (sort_dedup (col_list dat n c (c - 1)))).
+
+Ltac avg_head c :=
+  unfold py_parameters_compute_average_cell_count;
+  cbn [bind bind2 np_shape map py_getitem_x py_getitem np_index1 as_num Z.ltb length];
+  unfold nthZ; cbn [Z.to_nat nth Z.leb Z.ltb Z.compare Z.of_nat andb Pos.of_succ_nat Pos.succ];
+  unfold np_col; cbn [as_num];
+  destruct (Z.ltb_spec (-1) 0); [|lia];
+  destruct (Z.leb_spec 0 (-1 + c)); [|lia]; destruct (Z.ltb_spec (-1 + c) c); [|lia];
+  replace (-1 + c) with (c - 1) by lia;
+  cbn [andb bind np_unique np_shape map py_getitem np_index1 as_num];
+  cbn [length Z.of_nat Z.ltb Z.leb Z.compare andb Pos.of_succ_nat Pos.succ]; unfold nthZ; cbn [Z.to_nat nth].
+
+(* None / True / False: cells per time point *)
+Lemma average_count_flag n c dat nz :
+  1 <= c -> nz = VNone \/ (exists b, nz = VBool b) ->
+  py_parameters_compute_average_cell_count (VArr KF [n; c] dat) nz = py_truediv (VInt n) (VInt (n_unique dat n c)).
+Proof.
+  intros Hc Hnz. avg_head c.
+  destruct Hnz as [->|[b ->]]; reflexivity.
+Qed.
+
+(* dict: mean of the entries of the time points PRESENT in the data *)
+Definition dict_get (l : list (val * val)) (u : xf) : val :=
+  match assoc_lookup (VFloat u) l with Some w => w | None => VNone end.
+Definition dict_has (l : list (val * val)) (u : xf) : bool :=
+  match assoc_lookup (VFloat u) l with Some _ => true | None => false end.
+
+Lemma average_count_dict n c dat l :
+  1 <= c -> forallb (dict_has l) (sort_dedup (col_list dat n c (c - 1))) = true ->
+  py_parameters_compute_average_cell_count (VArr KF [n; c] dat) (VDict l)
+  = bind (py_sum (VList (map (dict_get l) (sort_dedup (col_list dat n c (c - 1))))))
+         (fun s => py_truediv s (VInt (n_unique dat n c))).
+Proof.
+  intros Hc Hall. avg_head c.
+  cbn [or_else cond bind bind2 py_is truthy py_isinstance existsb py_isinstance1 orb].
+  unfold py_listcomp. cbn [iter_items bind].
+  rewrite (listcomp_go_filter _ _ (fun v => match v with VArr KF [] [u] => dict_get l u | _ => VNone end) (fun _ => true)).
+  - cbn [rmap bind]. fold (n_unique dat n c).
+    replace (filter (fun _ : val => true) (map (fun x : xf => VArr KF [] [x]) (sort_dedup (col_list dat n c (c - 1)))))
+      with (map (fun x : xf => VArr KF [] [x]) (sort_dedup (col_list dat n c (c - 1)))).
+    2:{ generalize (sort_dedup (col_list dat n c (c - 1))). intros q. induction q as [|a q IH]; [reflexivity|]. cbn [map filter]. rewrite <- IH. reflexivity. }
+    rewrite map_map. reflexivity.
+  - intros x Hx. apply in_map_iff in Hx. destruct Hx as [u [<- Hu]].
+    rewrite forallb_forall in Hall. specialize (Hall u Hu). unfold dict_has in Hall. unfold dict_get.
+    cbn [bind bind2 np_item elem_val py_getitem_x py_getitem].
+    destruct (assoc_lookup (VFloat u) l); [reflexivity|discriminate].
+  - reflexivity.
+Qed.
+
+(* list / array: mean of the entries *)
+Lemma average_count_list n c dat l :
+  1 <= c ->
+  py_parameters_compute_average_cell_count (VArr KF [n; c] dat) (VList l)
+  = bind (bind (np_asarray (VList l)) np_sum) (fun s => py_truediv s (VInt (Z.of_nat (length l)))).
+Proof.
+  intros Hc. avg_head c. reflexivity.
+Qed.
+
+Lemma py_sum_ints_from (zs : list Z) a :
+  fold_left (fun acc x => bind acc (fun v => py_add v x)) (map VInt zs) (Ok (VInt a)) = Ok (VInt (fold_left Z.add zs a)).
+Proof.
+  revert a. induction zs as [|z zs IH]; intros a; [reflexivity|].
+  cbn [map fold_left bind]. unfold py_add at 2, arith. cbn [is_array orb as_num]. apply IH.
+Qed.
+Lemma py_sum_ints (zs : list Z) : py_sum (VList (map VInt zs)) = Ok (VInt (fold_left Z.add zs 0)).
+Proof. unfold py_sum. apply py_sum_ints_from. Qed.
+
+(* ---------- the estimator methods ---------- *)
+Section Methods.
+  Variable nnw : val -> val -> val -> val -> res val.
+  Variable ls_of : val -> res val.
+
+  (* the length-scale heuristic recomputes the distances with normalize=False whenever normalisation is on *)
+  Lemma ls_uses_raw_lemma ls_factor nn nz x :
+    norm_on nz = true ->
+    tsde_compute_ls nnw ls_of ls_factor nn nz x
+    = bind (nnw x VNone VNone (VBool false)) (fun raw => bind (ls_of raw) (fun ls => py_mul ls ls_factor)).
+  Proof.
+    intros H. unfold tsde_compute_ls.
+    assert (E : forall m : res val, bind m (fun ls0 => Ok ls0) = m) by (intros [|]; reflexivity).
+    destruct nz; try discriminate; try (destruct b; [|discriminate]);
+      cbn [bind bind2 and_then cond py_is_not py_is truthy negb];
+      (destruct (nnw x VNone VNone (VBool false)) as [raw|]; cbn [bind]; [|reflexivity]);
+      (destruct (ls_of raw) as [ls|]; cbn [bind]; [|reflexivity]); apply E.
+  Qed.
+
+  Lemma ls_without_normalisation ls_factor nn nz x :
+    norm_on nz = false ->
+    tsde_compute_ls nnw ls_of ls_factor nn nz x = bind (ls_of nn) (fun ls => py_mul ls ls_factor).
+  Proof.
+    intros H. unfold tsde_compute_ls.
+    assert (E : forall m : res val, bind m (fun ls0 => Ok ls0) = m) by (intros [|]; reflexivity).
+    destruct nz; try discriminate; try (destruct b; [discriminate|]);
+      cbn [bind bind2 and_then cond py_is_not py_is truthy negb Bool.eqb];
+      (destruct (ls_of nn) as [ls|]; cbn [bind]; [|reflexivity]); apply E.
+  Qed.
+
+  (* _compute_nn_distances hands x, d and the normalize setting to the routine (times = None) *)
+  Lemma compute_nn_wiring d nz x :
+    tsde_compute_nn_distances nnw d nz x
+    = bind (nnw x VNone d nz) (fun v => py_validation_validate_nn_distances v (VBool false)).
+  Proof.
+    unfold tsde_compute_nn_distances. cbn [bind bind2]. destruct (nnw x VNone d nz) as [v|]; cbn [bind]; [|reflexivity].
+    destruct (py_validation_validate_nn_distances v (VBool false)); reflexivity.
+  Qed.
+End Methods.
+
+(* BaseEstimator._prepare_attribute: compute only when the attribute is None (hand model, as in C15) *)
+Definition prepare_attr14 (given : val) (computed : res val) : res val :=
+  match given with VNone => computed | _ => Ok given end.
+
+Lemma explicit_nn_untouched_lemma nnw k n dat d nz x :
+  prepare_attr14 (VArr k [n] dat) (tsde_compute_nn_distances nnw d nz x) = Ok (VArr k [n] dat).
+Proof. reflexivity. Qed.
+
+(* ---------- the whole routine (times as the trailing column, already a float matrix) ---------- *)
+Lemma vtx_column n c dat :
+  py_validation_validate_time_x (VArr KF [n; c] dat) VNone VNone (VBool false) = Ok (VArr KF [n; c] dat).
+Proof. reflexivity. Qed.
+
+Lemma prologue_column_off n c dat d nz : 1 <= c -> nz = VNone \/ nz = VBool false ->
+  nnwt_prologue (VArr KF [n; c] dat) VNone d nz
+  = bind (np_empty (VInt n)) (fun init =>
+    bind (py_truediv (VInt n) (VInt (n_unique dat n c))) (fun av =>
+    Ok (VTuple [VArr KF [n; c] dat; VArr KF [n_unique dat n c] (sort_dedup (col_list dat n c (c - 1))); init; av; d]))).
+Proof.
+  intros Hc Hnz. unfold nnwt_prologue.
+  cbn [bind]. rewrite vtx_column. cbn [bind bind2].
+  unfold np_col. cbn [as_num].
+  destruct (Z.ltb_spec (-1) 0); [|lia].
+  destruct (Z.leb_spec 0 (-1 + c)); [|lia]. destruct (Z.ltb_spec (-1 + c) c); [|lia].
+  replace (-1 + c) with (c - 1) by lia.
+  cbn [andb bind np_unique np_shape map py_getitem_x py_getitem np_index1 as_num].
+  cbn [length Z.of_nat Z.ltb Z.leb Z.compare andb Pos.of_succ_nat Pos.succ]. unfold nthZ. cbn [Z.to_nat nth].
+  fold (n_unique dat n c).
+  change (bind2 py_getitem_x (Ok (VTuple [VInt n; VInt c])) (Ok (VInt 0))) with (Ok (VInt n)).
+  cbn [bind].
+  destruct (np_empty (VInt n)) as [init|]; cbn [bind]; [|reflexivity].
+  cbn [py_len bind].
+  destruct (py_truediv (VInt n) (VInt (n_unique dat n c))) as [av|]; cbn [bind]; [|reflexivity].
+  destruct Hnz as [-> | ->]; reflexivity.
+Qed.
+
+Lemma take_rows_length {A} (c rows : nat) (d : list A) : length (take_rows c rows d) = rows.
+Proof. revert d; induction rows as [|r IH]; intros d; simpl; [reflexivity|]. now rewrite IH. Qed.
+
+Lemma col_list_length dat n c j : length (col_list dat n c j) = Z.to_nat n.
+Proof. unfold col_list. rewrite map_length. apply range_from_length. Qed.
+
+Lemma cells_of_length dat n c : length (cells_of dat n c) = Z.to_nat n.
+Proof.
+  unfold cells_of, feature_rows. rewrite combine_length, map_length, take_rows_length, col_list_length. lia.
+Qed.
+
+Lemma map_snd_combine {A B} (a : list A) (b : list B) : length a = length b -> map snd (combine a b) = b.
+Proof. revert b; induction a as [|x a IH]; intros [|y b] H; simpl in *; try discriminate; [reflexivity|]. now rewrite IH by lia. Qed.
+Lemma map_fst_combine {A B} (a : list A) (b : list B) : length a = length b -> map fst (combine a b) = a.
+Proof. revert b; induction a as [|x a IH]; intros [|y b] H; simpl in *; try discriminate; [reflexivity|]. now rewrite IH by lia. Qed.
+
+Lemma cells_times dat n c : map snd (cells_of dat n c) = col_list dat n c (c - 1).
+Proof. unfold cells_of, feature_rows. apply map_snd_combine. rewrite map_length, take_rows_length, col_list_length. reflexivity. Qed.
+Lemma cells_features dat n c : map fst (cells_of dat n c) = feature_rows dat n c.
+Proof. unfold cells_of, feature_rows. apply map_fst_combine. rewrite map_length, take_rows_length, col_list_length. reflexivity. Qed.
+
+Lemma xf_eqb_nan_r a : xf_eqb a XNaN = false.
+Proof. destruct a; reflexivity. Qed.
+
+Lemma mask_nan_empty {P} (cs : list (P * xf)) : count_true (mask_of cs XNaN) = 0%nat.
+Proof. unfold mask_of, count_true. induction cs as [|c cs IH]; [reflexivity|]. cbn [map filter]. rewrite xf_eqb_nan_r. exact IH. Qed.
+
+Section Top.
+  Variable nn_oracle : list (list xf) -> list xf.
+  Variable powf : xf -> xf -> xf.
+  Hypothesis nn_len : forall g, length (nn_oracle g) = length g.
+
+  (* without normalisation: output i is the neighbour distance of cell i within the cells sharing its time stamp,
+     in the original order; all time stamps are numbers *)
+  Theorem nn_within_column_raw n c dat d nz v :
+    0 <= n -> 1 <= c -> nz = VNone \/ nz = VBool false ->
+    nn_within nn_oracle powf (VArr KF [n; c] dat) VNone d nz = Ok v ->
+    let cs := cells_of dat n c in
+    let uts := sort_dedup (col_list dat n c (c - 1)) in
+    exists out, v = VArr KF [n] out /\ length out = Z.to_nat n /\
+      forall i, (i < Z.to_nat n)%nat ->
+        exists u, In u uts /\ xf_eqb (time_of cs i) u = true /\ (2 <= count_true (mask_of cs u))%nat /\
+          nth i out XNaN = nth (rank (mask_of cs u) i) (nn_oracle (select (mask_of cs u) (feature_rows dat n c))) XNaN.
+  Proof.
+    intros Hn Hc Hnz H cs uts. unfold nn_within in H. rewrite (prologue_column_off n c dat d nz Hc Hnz) in H.
+    unfold np_empty in H. cbn [as_num] in H. destruct (Z.ltb_spec n 0) as [|_]; [lia|]. cbn [bind] in H.
+    destruct (py_truediv (VInt n) (VInt (n_unique dat n c))) as [av|] eqn:Hav; cbn [bind] in H; [|discriminate].
+    fold cs uts in H.
+    destruct (loop nn_oracle (fac_of powf nz av (VArr KF [n_unique dat n c] uts) d) cs uts (repeat (XFin 0) (Z.to_nat n)))
+      as [out|] eqn:Hl; cbn [bind] in H; [|discriminate].
+    injection H as <-. exists out.
+    assert (Hoff : norm_on nz = false) by (destruct Hnz as [-> | ->]; reflexivity).
+    destruct (loop_spec nn_oracle (fac_of powf nz av (VArr KF [n_unique dat n c] uts) d) nn_len cs) with (uts := uts)
+      (init := repeat (XFin 0) (Z.to_nat n)) (out := out) as [Ho [Hin _]].
+    - intros t fs Hf. rewrite fac_of_off in Hf by exact Hoff. discriminate.
+    - rewrite repeat_length. unfold cs. rewrite cells_of_length. reflexivity.
+    - apply sort_dedup_distinct.
+    - exact Hl.
+    - split; [reflexivity|]. split; [rewrite Ho; unfold cs; apply cells_of_length|].
+      intros i Hi.
+      assert (Hti : time_of cs i = nth i (col_list dat n c (c - 1)) XNaN) by (unfold time_of, cs; rewrite cells_times; reflexivity).
+      assert (Hnn : xf_isnan (time_of cs i) = false).
+      { destruct (xf_isnan (time_of cs i)) eqn:E; [|reflexivity]. exfalso.
+        assert (Hex : existsb xf_isnan (col_list dat n c (c - 1)) = true).
+        { apply existsb_exists. exists (time_of cs i). split; [|exact E]. rewrite Hti. apply nth_In. rewrite col_list_length. exact Hi. }
+        destruct (Hin XNaN (sort_dedup_nan _ Hex)) as [Hc2 _]. rewrite mask_nan_empty in Hc2. lia. }
+      destruct (sort_dedup_cover (col_list dat n c (c - 1)) (time_of cs i)) as [u [Hu Hm]]; [rewrite Hti; apply nth_In; rewrite col_list_length; exact Hi|exact Hnn|].
+      exists u. split; [exact Hu|]. split; [exact Hm|].
+      destruct (Hin u Hu) as [Hc2 [fo [Hf Hval]]]. split; [exact Hc2|].
+      rewrite fac_of_off in Hf by exact Hoff. injection Hf as <-.
+      rewrite (Hval i); [|unfold cs; rewrite cells_of_length; exact Hi|exact Hm].
+      unfold value_at. unfold cs at 3. rewrite cells_features. reflexivity.
+  Qed.
+End Top.
